@@ -74,7 +74,8 @@ def run(run, prop, n, P, maker=None, relevant=None, batch=1500, is_nontrivial=No
   ops_total = 0
   for i in range(0, len(traces), batch):
     part = traces[i:i + batch]
-    verdicts, r = hsmtrace.validate([{"tid": t["tid"], "chart": t["chart"], "ev": t["ev"]} for t in part])
+    verdicts, r = hsmtrace.validate([{"tid": t["tid"], "chart": t["chart"], "ev": t["ev"]} for t in part],
+                                    focus=(prop if attr is None else ""))
     states += r.distinct
     trans += r.generated
     for t in part:
